@@ -702,10 +702,16 @@ func (x *Exec) safetyKind(kind string) bool {
 	return x.rootC.SafetyKinds == nil && defaultSafety[kind]
 }
 
-// run-time checks proved in every function under contract unless its contract says otherwise (GOVC_SAFETY)
+// run-time checks proved in every function under contract unless its contract says otherwise: index / slice
+// bounds and integer division by zero (GOVC_SAFETY overrides the list; nil dereference, type assertions, nil-map
+// writes and make() sizes are opt-in per contract with `safety <kinds>` / `safety on`)
 var defaultSafety = func() map[string]bool {
 	m := map[string]bool{}
-	for _, k := range strings.Fields(strings.ReplaceAll(os.Getenv("GOVC_SAFETY"), ",", " ")) {
+	list, set := os.LookupEnv("GOVC_SAFETY")
+	if !set {
+		list = "bounds divzero"
+	}
+	for _, k := range strings.Fields(strings.ReplaceAll(list, ",", " ")) {
 		m[k] = true
 	}
 	return m
@@ -728,6 +734,25 @@ func (x *Exec) safety(st *State, kind, what string, goal Term) {
 	// stable name: kind + the top frame's function + instruction ordinal of that kind in that function
 	fr := st.top()
 	name := x.oblName("safety", 0, fmt.Sprintf("%s:%s@%s.b%d.%d", kind, what, relName(fr.fn), fr.block.Index, fr.idx))
+	// the values a replay needs, as far as they are defined at this point of the path
+	if x.rootC != nil && len(x.rootC.Observes) > 0 && x.curObs == nil {
+		root := st.frames[0]
+		sc := x.specCtxFor(st, root, root.pre)
+		for _, ob := range x.rootC.Observes {
+			func() {
+				defer func() {
+					if r := recover(); r != nil {
+						if _, ok := r.(poisonSignal); ok {
+							return
+						}
+						panic(r)
+					}
+				}()
+				x.evalObserve(sc, ob)
+			}()
+		}
+		defer func() { x.curObs = nil }()
+	}
 	x.assert(st, name, "safety", what, "", goal, true)
 }
 
@@ -883,6 +908,13 @@ func (x *Exec) loopHeader(st *State, fr *Frame, h *ssa.BasicBlock, ord int, phis
 		if phi.Comment != "" {
 			fr.env[phi.Comment] = envEntry{v: nv}
 		}
+		if phi.Comment == "rangeindex" {
+			// the hidden index of a `range` loop over a slice / array / integer starts at -1 and only ever grows by
+			// one per iteration (go/ssa's lowering): -1 <= index is an invariant by construction
+			if sv, ok := nv.(Scalar); ok && isRangeIndexPhi(phi) {
+				st.assume(mk(SBool, "<=", intLit(-1), sv.T))
+			}
+		}
 	}
 	// map iterators advanced inside the loop: after an arbitrary number of iterations an arbitrary set of keys
 	// has been visited
@@ -1034,6 +1066,29 @@ func (x *Exec) loopEventTokens(fn *ssa.Function, body []*ssa.BasicBlock, inlined
 	}
 	scanBlocks(body, 0, inlined)
 	return toks, wild, dyn
+}
+
+// isRangeIndexPhi: phi(-1, phi + 1), the shape go/ssa gives the index of a range loop.
+func isRangeIndexPhi(phi *ssa.Phi) bool {
+	okInit, okStep := false, false
+	for _, e := range phi.Edges {
+		switch v := e.(type) {
+		case *ssa.Const:
+			if v.Value == nil || v.Value.ExactString() != "-1" || okInit {
+				return false
+			}
+			okInit = true
+		case *ssa.BinOp:
+			c, isC := v.Y.(*ssa.Const)
+			if v.Op != token.ADD || v.X != ssa.Value(phi) || !isC || c.Value == nil || c.Value.ExactString() != "1" {
+				return false
+			}
+			okStep = true
+		default:
+			return false
+		}
+	}
+	return okInit && okStep
 }
 
 // havocLoopWrites havocs every heap location that the loop body may assign (syntactic over-approximation).
